@@ -247,7 +247,7 @@ PROPS = {
   theorems="Jp.C16.fromStr_eq_spec, fromStr_ok_iff, display_fromStr, fromStr_display, *_truthful, forLen*_exact",
  ),
  "C17": dict(
-  ops={"cmp": dict(fields=["eq", "ord"], spec=[("eq", "spec_eq", ident), ("ord", "spec_ord", ident)], laws=["law_ops", "law_hash", "law_maps"])},
+  ops={"cmp": dict(fields=["eq", "ord"], spec=[("eq", "spec_eq", ident), ("ord", "spec_ord", ident)], laws=["law_ops", "law_hash", "law_maps", "law_alias"])},
   rule="seeded random ordered pairs of valid pointers (equal, prefix-related, differing in first/middle/last byte or only in length, multi-byte) through all 20 PartialEq and 20 PartialOrd/Ord forms; non-trivial: the texts differ",
   theorems="Jp.C17.eq_impls_are_text_eq, ord_impls_are_lexCmp, lexCmp_* (total order), hash_inputs_equal",
   partial="hash values and map lookups (law_hash, law_maps) exist only on the implementation side; the theorems are shallow by nature",
